@@ -16,6 +16,7 @@ import z3
 
 from . import strings as S
 from . import values as V
+from . import core
 from .core import Unsupported
 
 SRC_ROOT = os.environ.get("SYMX_SRC_ROOT", "/repo/src")
@@ -352,6 +353,16 @@ def _is_symbolic_arg(x):
     return isinstance(x, (S.SymStr, S.Tainted, V.SymInt, V.SymReal, V.SymFloat, V.SymBool))
 
 
+def _struct_key(x):
+    if isinstance(x, S.SymStr):
+        return ("S", tuple(ch if isinstance(ch, str) else ("z", ch.get_id()) for ch in x.chars))
+    if isinstance(x, (V.SymInt, V.SymReal, V.SymFloat, V.SymBool)):
+        return ("z", type(x).__name__, x.e.get_id())
+    if isinstance(x, S.Tainted):
+        raise TypeError("tainted")
+    return ("c", type(x).__name__, x)
+
+
 def _cache_bypass(cached):
     """lru_cache'd function -> dispatcher that bypasses the cache for symbolic arguments
     (hashing a symbolic key would enumerate it).  Concrete calls still use the real cache."""
@@ -360,7 +371,24 @@ def _cache_bypass(cached):
     @functools.wraps(raw)
     def disp(*a, **k):
         if any(_is_symbolic_arg(x) for x in a) or any(_is_symbolic_arg(x) for x in k.values()):
-            return raw(*a, **k)
+            # model of the cache for symbolic arguments: a second call on this path with *structurally
+            # identical* arguments (same cells / same z3 terms - certainly equal) is a certain cache hit and
+            # gets the very object the first call returned, as the real cache would hand out; arguments that
+            # are merely possibly equal are treated as misses (an under-approximation of sharing)
+            c = core.CTX
+            try:
+                key = (tuple(_struct_key(x) for x in a), tuple(sorted((n, _struct_key(v)) for n, v in k.items()))) if c is not None else None
+                hash(key)
+            except TypeError:
+                key = None
+            if key is None:
+                return raw(*a, **k)
+            memo = c.__dict__.setdefault("cache_memo", {}).setdefault(id(cached), {})
+            if key in memo:
+                return memo[key][1]
+            out = raw(*a, **k)
+            memo[key] = ((a, k), out)  # keeps the argument terms alive, so their ids stay unique
+            return out
         return cached(*a, **k)
 
     disp.cache_info = cached.cache_info
